@@ -34,7 +34,10 @@ from gotranx.schemes import Scheme
 MODEL = ('states("M", v=-80, m=0.1)\nstates("G", h=0.5)\nparameters("M", g=2.5, E=50)\nparameters("G", tau=3)\nexpressions("M")\n'
          "i = g*m*h*(v - E)\nunused_i = v*2\ndv_dt = -i + Conditional(Lt(t, 1), 1, 0)\ndm_dt = (1/(1 + exp(-v/10)) - m)/0.5\n"
          'expressions("G")\ndh_dt = (1/(1 + exp(v/7)) - h)/tau\n')
-BROKEN = {"syntax": "states(x=1\ndx_dt = -x\n", "incomplete": "states(x=1, y=2)\ndx_dt = -x\n", "undefined": "states(x=1)\ndx_dt = -q*x\n"}
+BROKEN = {"syntax": "states(x=1\ndx_dt = -x\n", "incomplete": "states(x=1, y=2)\ndx_dt = -x\n", "undefined": "states(x=1)\ndx_dt = -q*x\n",
+          # accepted by the loader, refused when code is generated
+          "cyclic": "states(x=1)\na = b + 1\nb = a + 1\ndx_dt = a - x\n",
+          "reserved_name": "states(x=1, states=2)\ndx_dt = -x\ndstates_dt = 1\n"}
 SCHEMES = ["explicit_euler", "generalized_rush_larsen", "hybrid_rush_larsen", "forward_explicit_euler", "forward_generalized_rush_larsen"]
 
 
@@ -227,6 +230,16 @@ def main(argv=None):
                 if rc == 0 or new:
                     rep.violation(f"{cmd} on a {kind} model: exit status {rc}, files written: {new}",
                                   {"kind": "direct", "command": ["python", "-m", "gotranx", cmd, "bad.ode", "--format", "none"], "model": text, "stdout": so[-400:]})
+                    continue
+                # a failed run must not touch a file that is already there under the output name
+                for ext in (".py", ".c", ".h"):
+                    open(os.path.join(d, "bad" + ext), "w").write("previous result\n")
+                rc2, so2, se2 = run_cli([cmd, mp, "--format", "none"], d)
+                changed = [ext for ext in (".py", ".c", ".h") if open(os.path.join(d, "bad" + ext)).read() != "previous result\n"]
+                if rc2 == 0 or changed:
+                    rep.violation(f"{cmd} on a {kind} model fails (exit status {rc2}) but overwrites the existing output file bad{changed[0] if changed else ''}",
+                                  {"kind": "direct", "command": ["python", "-m", "gotranx", cmd, "bad.ode", "--format", "none"], "model": text,
+                                   "existing_files": ["bad.py", "bad.c", "bad.h"]})
         # ---- cellml2ode
         cm = sorted((core.REPO / "tests" / "cellml_files").glob("noble*.cellml"))
         if cm:
@@ -253,7 +266,8 @@ def main(argv=None):
              "foreign name, delta, remove-unused, formatter none/black, backend numpy/jax, output name none / relative / in a sub-directory / "
              "absolute, suffix, configuration via pyproject.toml in the working directory or --config with empty lists and zero); the working "
              "directory differs from the model's directory; non-trivial = at least one option or a configuration; invalid (syntax, incomplete, "
-             "undefined symbol) and missing models for both commands; cellml2ode on the shipped noble_1962 model",
+             "undefined symbol, and - accepted by the loader, refused at generation - cyclic, reserved name) and missing models for both commands, with and "
+             "without a file already present under the output name; cellml2ode on the shipped noble_1962 model",
         trusted_base=["Coq 8.16.1 kernel (the Cli.v model is thin)", "typer, the process exit status and the file system are observed, not modelled"],
         assumptions=["clang-format is not installed in this sandbox: ode2c is run with --format none (or c.format = none in the configuration), convert to C is not exercised"],
     )
